@@ -470,9 +470,10 @@ func genLargeCase(g *hx.Gen, sp largeSpec) {
 	}
 	first := commitBytes(keys, vals, sp.secure)
 	g.Count(fmt.Sprintf("large:%s:first-commit-KiB:%d", sp.name, first/1024))
-	ops := []string{"case", "new kind=" + kind}
+	// noshadow: the shadow executors (classification of buffer sharing) are skipped for the large cases; scribbling stays on
+	ops := []string{hx.CaseOp("noshadow"), "new kind=" + kind}
 	if sp.mode == "cap" {
-		ops[0] = hx.CaseOp("cap")
+		ops[0] = hx.CaseOp("cap", "noshadow")
 	}
 	put := func(i int) { ops = append(ops, fmt.Sprintf("put k=%s v=%s", hx.Hex(keys[i]), hx.Hex(vals[i]))) }
 	readAll := func(upto int) {
